@@ -29,14 +29,15 @@ REQUIRED = ['mon.protected_calls', 'mon.tree_unchanged', 'mon.user_roundtrip', '
 MIN_NONTRIVIAL = {'quick': 1500, 'thorough': 3000}
 
 MODES = ['w', 'a', 'x', 'r+', 'rb+', 'wb', 'ab']
-METHODS = ['write_txt', 'write_jsonfile', 'write_jsondict', 'update_jsondict', 'delete_files'] + \
+METHODS = ['write_txt', 'write_jsonfile', 'write_jsondict', 'update_jsondict', 'delete_files', 'delete_files_mixed'] + \
           [f'open_file:{m}' for m in MODES]
 ARRAY_NAMES = ['README.txt', 'arraydescription.json', 'arrayvalues.bin', 'metadata.json']
 RAGGED_NAMES = ['README.txt', 'arraydescription.json', 'metadata.json', 'values', 'indices',
                 'values/arrayvalues.bin', 'values/arraydescription.json', 'values/README.txt',
                 'indices/arrayvalues.bin', 'indices/arraydescription.json', 'values/newfile.txt',
                 'indices/newfile.json']
-SPELLINGS = ['plain', 'Path', 'dot', 'dotdouble', 'trailing', 'detour', 'doublesep', 'updown', 'PathDot']
+SPELLINGS = ['plain', 'Path', 'dot', 'dotdouble', 'trailing', 'detour', 'doublesep', 'updown', 'PathDot',
+             'parentdetour', 'PathParentDetour']
 
 
 def spell(name, how):
@@ -59,6 +60,10 @@ def spell(name, how):
     if how == 'updown':
         first = name.split('/')[0]
         return f'{first}/../{name}' if '/' in name or first in ('values', 'indices') else f'sub/./../{name}'
+    if how == 'parentdetour':          # out of the array directory and back in by its own name
+        return '../arr/' + name
+    if how == 'PathParentDetour':
+        return Path('..') / 'arr' / name
     raise ValueError(how)
 
 
@@ -90,6 +95,7 @@ def make(env, d, kind, with_md):
         a = D.asraggedarray(p, [[1, 2], [3]], metadata=md, accessmode='r+')
     (p / 'sub').mkdir()
     (p / 'sub' / 'note.txt').write_text('user data')
+    (p / 'userfile.txt').write_text('more user data')
     return a, p
 
 
@@ -104,6 +110,8 @@ def invoke(dd, meth, fn, ow):
         dd.update_jsondict(fn, {'shape': [1], 'x': 1})
     elif meth == 'delete_files':
         dd.delete_files([fn])
+    elif meth == 'delete_files_mixed':   # user files listed before the protected name
+        dd.delete_files(['sub/note.txt', 'userfile.txt', fn])
     else:
         mode = meth.split(':')[1]
         with dd.open_file(fn, mode) as f:
